@@ -71,7 +71,7 @@ def run(ck):
         "behaviour of out-of-order guard drops and cross-thread interleavings are not decided.")
     ck.assumptions += ["std::thread_local!, RefCell and atomics behave as documented",
                        "guards dropped in LIFO order on the thread that created them (the property's 'properly nested')"]
-    ck.rule("C02.R1", "scope guard pairing: count inc/dec, construction, restore, unwind", floor=8)
+    ck.rule("C02.R1", "scope guard pairing: count inc/dec, construction, restore, unwind", floor=9)
     ck.rule("C02.R2", "get_default: global fast path iff no scope is live anywhere", floor=2)
     ck.rule("C02.R3", "per-thread default is written only by set_default/guard drop, never from get_global()", floor=3)
     ck.rule("C02.R4", "global default: single CAS-guarded write, published before INITIALIZED, guarded read", floor=5)
@@ -194,6 +194,24 @@ def r1(ck, F):
     else:
         ck.bad("C02.R1", "guard drop restores the saved prior", where(dropg.raw["sp"]),
                "expected exactly one `state.default.replace(<value taken from self.0>)` in Drop for DefaultGuard")
+    # ... unconditionally: every returning path of the guard's drop decrements the scope count and (tries to) write the
+    # prior back; a drop that bails out early (e.g. while panicking) leaves the dead scope's collector installed
+    probs = []
+    n = 0
+    for p in PathEval(dropg).run():
+        if p.end != "return":
+            continue
+        n += 1
+        ms = [(c[1].get("method"), c[1].get("path", "")) for c in p.calls]
+        if not any(m == "fetch_sub" for m, _ in ms):
+            probs.append("a returning path does not decrement SCOPED_COUNT")
+        if not any(m in ("try_with", "with") and "LocalKey" in pth for m, pth in ms) and not any(m == "replace" and "RefCell" in pth for m, pth in ms):
+            conds = [show(c[0])[:60] for c in p.conds]
+            probs.append("a returning path skips the write-back of the prior default (conditions: %s)" % conds)
+    if n and not probs:
+        ck.ok("C02.R1", "guard drop restores and decrements on every path", fn=dropg.path, detail="%d path(s)" % n)
+    else:
+        ck.bad("C02.R1", "guard drop restores and decrements on every path", where(dropg.raw["sp"]), "; ".join(sorted(set(probs))) or "no returning path", fn=dropg.path)
     # with_default: the guard is dropped on the normal and on the unwind path of f()
     wd = F.body(D + "with_default")
     if ck.anchor("C02.R1", "with_default", wd):
